@@ -137,7 +137,7 @@ Proof.
   split; [apply wfb_ok; vm_compute; reflexivity|].
   split; [vm_compute; reflexivity|]. split; [vm_compute; reflexivity|].
   split; [vm_compute; reflexivity|]. split; [vm_compute; reflexivity|].
-  eexists. split; vm_compute; reflexivity.
+  eexists. split; [vm_compute; reflexivity|]. vm_compute. reflexivity.
 Qed.
 
 (* the findings are recognised by the classification predicates, and only they *)
@@ -194,7 +194,7 @@ Proof. split; [apply wfb_ok; vm_compute; reflexivity|]. vm_compute. auto 10. Qed
    "implicit degree" whose degree is not the default 0.5 (the clone recomputes the default) *)
 Example C13_equal_needs_constructor_invariant :
   exists t t', aht t = Some t' /\ item_eqb t' t = false.
-Proof. exists (Fuzzy meta0 (W [97]%N) (mkDec false 2 0) true). eexists. split; vm_compute; reflexivity. Qed.
+Proof. exists (Fuzzy meta0 (W [97]%N) (mkDec false 2 0) true). eexists. split; [vm_compute; reflexivity|]. vm_compute. reflexivity. Qed.
 
 Print Assumptions C13_fails_exactly.
 Print Assumptions C13_equal_to_input.
